@@ -4,6 +4,7 @@
    decided exactly in Q on the emitted coordinates, the slice/divergence tests, the candidate
    choice and the acceptance test in Flocq. *)
 From MiniMcmc Require Export Base.Fp Base.Num Model.NUTS.
+From MiniMcmc Require Import Model.NUTSSym.
 Close Scope Q_scope.
 Close Scope R_scope.
 Open Scope Z_scope.
@@ -50,7 +51,7 @@ Section Prec32.
     let m := if flt q one then q else one in           (* T::one().min(q): q if q < 1 else 1 *)
     flt (b32_of_bits u) m.
   Definition trans32 (fuel : nat) (dirs : list bool) (tus accs : list Z) :=
-    transition (fun v i => if v then i + 1 else i - 1) joint32 (noturn_tbl t) flt sub1000_32 alpha32
+    transition ileap joint32 (noturn_tbl t) flt sub1000_32 alpha32
                (b32_plus mode_NE) take2_64 (b32_of_bits logu) accept32 fuel 0 dirs tus accs.
 End Prec32.
 
@@ -68,7 +69,7 @@ Section Prec64.
     let m := if flt q one then q else one in
     flt (b64_of_bits u) m.
   Definition trans64 (fuel : nat) (dirs : list bool) (tus accs : list Z) :=
-    transition (fun v i => if v then i + 1 else i - 1) joint64 (noturn_tbl t) flt sub1000_64 alpha64
+    transition ileap joint64 (noturn_tbl t) flt sub1000_64 alpha64
                (b64_plus mode_NE) take2_64 (b64_of_bits logu) accept64 fuel 0 dirs tus accs.
 End Prec64.
 
@@ -92,6 +93,27 @@ Definition nuts_eval32 (t : table) (logu : Z) (dirs : list Z) (tus accs : list Z
   render bits_of_b32 (trans32 t logu 64 (map zb' dirs) tus accs).
 Definition nuts_eval64 (t : table) (logu : Z) (dirs : list Z) (tus accs : list Z) : list Z :=
   render bits_of_b64 (trans64 t logu 64 (map zb' dirs) tus accs).
+
+(* the trajectory's extent after the transition: [lo; hi] of the model's final state, then span_from 0 (directions)
+   (Model/NUTSSym.v: what the doublings cover when no subtree stops early) and whether every recorded subtree was complete;
+   the driver compares lo/hi with the extreme trajectory indices the implementation visited, and with the span when complete
+   (C03_transition_span) *)
+Definition span_out {Fl} (r : option (@nst Z * list (@dbl Z Fl) * list bool * list Z * list Z)) : list Z :=
+  match r with
+  | None => [-2]
+  | Some (st, recs, _, _, _) =>
+      let B := span_from 0 (map d_dir recs) in
+      let complete := forallb (fun d => ts (d_tree d)) recs in
+      (* among all 2^j direction sequences, how many rebuild the same trajectory from the point the chain moved to
+         (C03_transition_symmetry: exactly one) — enumerated for short complete transitions only, -1 otherwise *)
+      let cnt := if complete && Nat.leb (length recs) 8
+                 then Z.of_nat (length (filter (builds (cur st) (lo st, hi st)) (all_dirs (length recs)))) else (-1)%Z in
+      [lo st; hi st; fst B; snd B; b2z complete; cnt]
+  end.
+Definition nuts_span32 (t : table) (logu : Z) (dirs : list Z) (tus accs : list Z) : list Z :=
+  span_out (trans32 t logu 64 (map zb' dirs) tus accs).
+Definition nuts_span64 (t : table) (logu : Z) (dirs : list Z) (tus accs : list Z) : list Z :=
+  span_out (trans64 t logu 64 (map zb' dirs) tus accs).
 
 (* the leaves each build_tree call of the transition visits (Model.NUTS.visited, the specification-side
    enumeration): per doubling, given as (depth, edge index, direction, that doubling's tree uniforms),
